@@ -437,4 +437,83 @@ theorem imSet_eq_pputSorted (m : MapImpl) (k v : Nat) (hs : StrictSorted m) (h :
           simp only at this; omega
       simp [h2, hlt, ih hs'.2 h]
 
+/-! ### `stableSort` is a stable sort -/
+
+/-- a tie class: `p` selects elements that are pairwise `le` (e.g. all elements with one sort key) -/
+theorem filter_orderedInsert {α : Type} (le : α → α → Bool) (p : α → Bool)
+    (hp : ∀ a z, p a = true → p z = true → le a z = true) (a : α) (s : List α) :
+    (orderedInsert le a s).filter p = if p a then a :: s.filter p else s.filter p := by
+  induction s with
+  | nil => simp [orderedInsert, List.filter_cons]
+  | cons y ys ih =>
+    simp only [orderedInsert]
+    by_cases h : le a y
+    · simp only [h, ↓reduceIte, List.filter_cons]
+    · simp only [h, Bool.false_eq_true, ↓reduceIte, List.filter_cons, ih]
+      by_cases hy : p y
+      · have hpa : p a = false := by
+          cases hpa : p a with
+          | false => rfl
+          | true => exact absurd (hp a y hpa hy) h
+        simp [hy, hpa]
+      · simp [hy]
+
+theorem filter_stableSort {α : Type} (le : α → α → Bool) (p : α → Bool)
+    (hp : ∀ a z, p a = true → p z = true → le a z = true) (l : List α) :
+    (stableSort le l).filter p = l.filter p := by
+  induction l with
+  | nil => rfl
+  | cons x xs ih =>
+    simp only [stableSort, filter_orderedInsert le p hp, ih, List.filter_cons]
+
+theorem perm_orderedInsert {α : Type} (le : α → α → Bool) (x : α) (l : List α) :
+    (orderedInsert le x l).Perm (x :: l) := by
+  induction l with
+  | nil => exact List.Perm.refl _
+  | cons y ys ih =>
+    simp only [orderedInsert]
+    by_cases h : le x y
+    · simp [h]
+    · simp only [h, Bool.false_eq_true, ↓reduceIte]
+      exact (List.Perm.cons y ih).trans (List.Perm.swap x y ys)
+
+theorem perm_stableSort {α : Type} (le : α → α → Bool) (l : List α) : (stableSort le l).Perm l := by
+  induction l with
+  | nil => exact List.Perm.refl _
+  | cons x xs ih => exact (perm_orderedInsert le x _).trans (List.Perm.cons x ih)
+
+theorem sorted_orderedInsert {α : Type} (le : α → α → Bool)
+    (total : ∀ a b, le a b = true ∨ le b a = true) (trans : ∀ a b c, le a b = true → le b c = true → le a c = true)
+    (x : α) (s : List α) (hs : s.Pairwise fun a b => le a b = true) :
+    (orderedInsert le x s).Pairwise fun a b => le a b = true := by
+  induction s with
+  | nil => simp [orderedInsert]
+  | cons y ys ih =>
+    rw [List.pairwise_cons] at hs
+    simp only [orderedInsert]
+    by_cases h : le x y
+    · simp only [h, ↓reduceIte, List.pairwise_cons]
+      refine ⟨?_, hs.1, hs.2⟩
+      intro z hz
+      simp only [List.mem_cons] at hz
+      rcases hz with hz | hz
+      · rw [hz]; exact h
+      · exact trans x y z h (hs.1 z hz)
+    · simp only [h, Bool.false_eq_true, ↓reduceIte, List.pairwise_cons]
+      refine ⟨?_, ih hs.2⟩
+      intro z hz
+      rcases (mem_orderedInsert le x z ys).1 hz with hz | hz
+      · rw [hz]
+        rcases total x y with h' | h'
+        · exact absurd h' h
+        · exact h'
+      · exact hs.1 z hz
+
+theorem sorted_stableSort {α : Type} (le : α → α → Bool)
+    (total : ∀ a b, le a b = true ∨ le b a = true) (trans : ∀ a b c, le a b = true → le b c = true → le a c = true)
+    (l : List α) : (stableSort le l).Pairwise fun a b => le a b = true := by
+  induction l with
+  | nil => simp [stableSort]
+  | cons x xs ih => exact sorted_orderedInsert le total trans x _ ih
+
 end TomlVerif.Lemmas.Containers16
